@@ -3,14 +3,51 @@
  * src/vps.c + src/packet-830.c + src/hamm.c linked (the codecs themselves are C12's subject).
  * Environment: vbi_send_event logs a snapshot of every event; vbi_chsw_reset (= cache of the old
  * station dropped) logs its calls; station table = 3 entries of the real struct type. */
-#define WITH_830
-#define G_DEC
-#define PKT_OWN_CNI_TABLE
-#define PKT_EVENT_HOOK c13_event
-#include "h_packet.c"
+#include "verif.h"
+#include "ref_codes.h"
+
+/* Cuts (DESIGN R2): struct caption AND struct teletext are carved out of vbi_decoder through their include guards (the announcement
+ * code touches neither; byte-wise libc access - memcmp, strlcpy, CLEAR - into a member of the 220 KB decoder made symex crawl).
+ * "src/packet.c" resolves to a scratch copy holding ONLY unham_page_link, station_lookup, unknown_cni, vbi_decode_vps, parse_bsd and
+ * parse_8_30, extracted textually from the current /repo/src/packet.c on every run (vlib/extract.py via Ob(patch=...)). */
+#define CC_H
+#define TELETEXT_H
+#include <pthread.h>
+#include "src/bcd.h"
+#include "src/format.h"
+#include "src/cache-priv.h"
+#ifndef VBI_DECODER
+#define VBI_DECODER
+typedef struct vbi_decoder vbi_decoder;
+#endif
+typedef enum { VBI_WST_LEVEL_1, VBI_WST_LEVEL_1p5, VBI_WST_LEVEL_2p5, VBI_WST_LEVEL_3p5 } vbi_wst_level;
+struct caption { int carved_out; };
+struct teletext { int carved_out; };
+
+#include "src/packet.c"
 #include "src/wss.c"
 
-const struct vbi_cni_entry vbi_cni_table[] = {
+static void c13_event(vbi_decoder *vbi, vbi_event *ev);
+static unsigned chsw_n; static unsigned chsw_nuid;
+void vbi_send_event(vbi_decoder *vbi, vbi_event *ev) { c13_event(vbi, ev); }
+void vbi_chsw_reset(vbi_decoder *vbi, vbi_nuid nuid) { (void) vbi; chsw_n++; chsw_nuid = nuid; }
+size_t _vbi_strlcpy(char *dst, const char *src, size_t size) { size_t i = 0; if (size) { for (; i + 1 < size && src[i]; i++) dst[i] = src[i]; dst[i] = 0; } return i; }
+/* externs the packet.c head declares/uses but the extracted functions never call */
+struct vbi_font_descr vbi_font_descriptors[88];
+static int bytes_eq(const void *a, const void *b, size_t n)
+{ const uint8_t *p = a, *q = b; size_t i; int ok = 1; for (i = 0; i < n; i++) ok &= (p[i] == q[i]); return ok; }
+/* EN 300 706 9.6.1 page link (for the initial page field of packet 8/30) */
+static void ref_encode_link(uint8_t *raw, unsigned mag_cur, unsigned mag_link, unsigned page, unsigned subno)
+{
+  unsigned rel = (mag_link & 7) ^ mag_cur;
+  unsigned s1 = subno & 15, s2 = (subno >> 4) & 7, s3 = (subno >> 8) & 15, s4 = (subno >> 12) & 3;
+  raw[0] = ref_ham8(page & 15); raw[1] = ref_ham8(page >> 4);
+  raw[2] = ref_ham8(s1); raw[3] = ref_ham8(s2 | ((rel & 1) << 3));
+  raw[4] = ref_ham8(s3); raw[5] = ref_ham8(s4 | (((rel >> 1) & 1) << 2) | (((rel >> 2) & 1) << 3));
+}
+static vbi_decoder VBI;
+
+const struct vbi_cni_entry vbi_cni_table[4] = {
   { 1, "DE", "ARD",  0x4901, 0x3D41, 0x3341, 0x0DC1 },
   { 2, "DE", "ZDF",  0x4902, 0x3D42, 0x3342, 0x0DC2 },
   { 3, "AT", "ORF1", 0x4301, 0x2AC1, 0x3AC1, 0x0AC1 },
@@ -39,6 +76,9 @@ static void c13_event(vbi_decoder *vbi, vbi_event *ev)
   struct evrec *r; (void) vbi;
   if (EVN >= EVMAX) { EVN++; return; }
   r = &EV[EVN++]; memset(r, 0, sizeof *r); r->type = ev->type;
+#if defined(VERIF_NATIVE) && defined(C13_DEBUG)
+  fprintf(stderr, "event #%u type 0x%x cni_vps %x nuid %u\n", EVN - 1, ev->type, ev->ev.network.cni_vps, ev->ev.network.nuid);
+#endif
   if (ev->type == VBI_EVENT_NETWORK || ev->type == VBI_EVENT_NETWORK_ID) {
     r->cni_vps = (unsigned) ev->ev.network.cni_vps; r->cni_8301 = (unsigned) ev->ev.network.cni_8301; r->cni_8302 = (unsigned) ev->ev.network.cni_8302; r->nuid = ev->ev.network.nuid;
   } else if (ev->type == VBI_EVENT_PROG_ID) r->pid = *ev->ev.prog_id;
@@ -49,7 +89,7 @@ static void c13_event(vbi_decoder *vbi, vbi_event *ev)
 
 /* independent reading of the VPS line (EN 300 231 / TR 101 231) */
 static unsigned ref_vps_cni(const uint8_t *b)
-{ unsigned c = ((b[10] & 3u) << 10) | ((b[11] & 0xC0u) << 2) | (b[8] & 0xC0u) | (b[11] & 0x3Fu); if (c == 0xDC3) c = (b[2] & 0x10) ? 0xDC2 : 0xDC1; return c; }
+{ unsigned c = ((b[10] & 3u) << 10) | ((b[11] & 0xC0u) << 2) | (b[8] & 0xC0u) | (b[11] & 0x3Fu); if (c == 0xDC3) c = (b[2] & 0x10) ? 0xDC1 : 0xDC2; /* TR 101 231: distinction bit set = ARD */ return c; }
 static unsigned ref_vps_pil(const uint8_t *b) { return ((b[8] & 0x3Fu) << 14) | ((unsigned) b[9] << 6) | (b[10] >> 2); }
 
 #ifndef KREC
@@ -86,7 +126,10 @@ V_HARNESS(h_vps_debounce)
         if (EVN > k) {
           V_ASSERT(EV[k].type == VBI_EVENT_PROG_ID, "vps_third_event_is_prog_id");
           V_ASSERT(bytes_eq(L[sel[t]], L[sel[t - 1]], 13) || (ref_vps_pil(L[sel[t]]) == ref_vps_pil(L[sel[t - 1]]) && L[sel[t]][12] == L[sel[t - 1]][12] && (L[sel[t]][2] >> 6) == (L[sel[t - 1]][2] >> 6)), "vps_prog_id_only_if_repeated");
-          V_ASSERT(EV[k].pid.pil == ref_vps_pil(buf) && EV[k].pid.pty == buf[12] && (unsigned) EV[k].pid.pcs_audio == (unsigned) (buf[2] >> 6) && EV[k].pid.cni == cni[t], "vps_prog_id_values");
+          V_ASSERT(EV[k].pid.pil == ref_vps_pil(buf), "vps_prog_id_pil");
+          V_ASSERT(EV[k].pid.pty == buf[12], "vps_prog_id_pty");
+          V_ASSERT((unsigned) EV[k].pid.pcs_audio == (unsigned) (buf[2] >> 6), "vps_prog_id_pcs");
+          V_ASSERT(EV[k].pid.cni == cni[t], "vps_prog_id_cni");
           k++; V_REACH("progid");
         }
         V_ASSERT(EVN == k, "vps_no_further_events");
